@@ -44,6 +44,17 @@ Definition c16_obs_eqb (a b : c16_obs) : bool :=
   | _, _ => false
   end.
 
+(* On a heap outside guard_F16a the implementation's outcome is not a function of the heap alone
+   (RecursionError, or an exponential walk cut by the harness, or - when the RecursionError is
+   swallowed inside cattrs' dispatcher - partially converted data): there the comparison only
+   demands that the model reports the failure; the finding is keyed by the guard bit. *)
+Definition case_eqb (c : c16_in) (m o : c16_obs) : bool :=
+  match c with
+  | InSer h r => if guard_F16a h r then c16_obs_eqb m o
+                 else match m with ObSer Err => true | _ => false end
+  | _ => c16_obs_eqb m o
+  end.
+
 Definition model_obs (c : c16_in) : c16_obs :=
   match c with
   | InConv tb ct ops =>
@@ -60,5 +71,7 @@ Definition guards (c : c16_in) : list bool :=
   | InSer h r => [guard_F16a h r]
   end.
 
-Definition run (cases : list (c16_in * c16_obs)) : list N :=
-  report c16_obs_eqb model_obs guards cases.
+Definition code16 (c : c16_in * c16_obs) : N :=
+  (if case_eqb (fst c) (model_obs (fst c)) (snd c) then 0 else 1)
+  + bits_of (map negb (guards (fst c))) 2.
+Definition run (cases : list (c16_in * c16_obs)) : list N := map code16 cases.
